@@ -226,8 +226,8 @@ where
     {
         loop {
             match self.peek()? {
-                Some(b' ') | Some(b'\n') | Some(b'\t') | Some(b'\r') | Some(b')') | Some(b']')
-                | Some(b'(') | Some(b'[') | Some(b';') | None => {
+                Some(b' ') | Some(b'\n') | Some(b'\t') | Some(b'\r') | Some(0x0C) | Some(b')')
+                | Some(b']') | Some(b'(') | Some(b'[') | Some(b';') | None => {
                     if scratch == b"." {
                         return error(self, ErrorCode::InvalidSymbol);
                     }
@@ -389,8 +389,8 @@ impl<'a> SliceRead<'a> {
             #[cfg(lexpr_verif)]
             crate::verif::tick();
             match self.peek_byte() {
-                None | Some(b' ') | Some(b'\n') | Some(b'\t') | Some(b'\r') | Some(b')')
-                | Some(b']') | Some(b'(') | Some(b'[') | Some(b';') => {
+                None | Some(b' ') | Some(b'\n') | Some(b'\t') | Some(b'\r') | Some(0x0C)
+                | Some(b')') | Some(b']') | Some(b'(') | Some(b'[') | Some(b';') => {
                     if scratch.is_empty() {
                         // Fast path: return a slice of the raw S-expression without any
                         // copying.
